@@ -224,6 +224,7 @@ def gen_options(repo, outdir):
     c.append('#define NL_COUNT_OPTIONS_N %d' % len(B))
     c.append('#define NL_COUNT_ENSURES \\\n' + ' \\\n'.join('__CPROVER_ensures(optv_%s <= optv_nl_max) /* %s */' % (n, n) for n in B))
     c.append('#define NL_COUNT_ALL_OK (' + ' && '.join('optv_%s <= optv_nl_max' % n for n in B) + ')')
+    c.append('#define NL_COUNT_ALL_ZERO (' + ' && '.join('optv_%s == 0' % n for n in B) + ')')
     cpp.append('#endif')
     c.append('#endif')
     os.makedirs(outdir, exist_ok=True)
